@@ -72,8 +72,14 @@ def gen_terminal_text(rng, malformed):
         if rng.random() < 0.3:
             k = rng.randint(0, len(v))
             v = v[:k] + rng.choice(SPECIAL if malformed else [' ', '\xa0', 'é', '😀', '　', '​']) + v[k:]
-        if rng.random() < 0.5:
+        r0 = rng.random()
+        if r0 < 0.45:
             p = p / 2
+        elif r0 < 0.6:
+            import math
+            p = math.nextafter(p, 0.0)          # a distinct double 1 ulp below: its own group, never merged
+        elif r0 < 0.65:
+            p = rng.choice([3e-17, 2e-17, 1e-17, 5e-324])
         pt = repr(p)
         end = '\n'
         if malformed:
